@@ -44,7 +44,7 @@ ASSUMPTIONS = [
     're-executing sampled sequences from scratch)',
 ]
 ANCHORS = ['Table.filter', 'Table.update_ids', 'Table._index_ids', 'errcheck', 'Table.merge', 'Table.concat', 'Table.collapse', 'Table.partition', 'Table.subsample', 'Table.transform']
-REQUIRED = ['pairwise_variants_checked', 'tables_built_from_one_matrix_object',
+REQUIRED = ['histories_under_other_error_profile', 'pairwise_variants_checked', 'tables_built_from_one_matrix_object',
             'tables_built_over_matrix_data', 'steps', 'earlier_tables_rechecked', 'refused_then_checked', 'oracle_runs', 'invariant_evaluations',
             'absent_id_probes', 'stale_id_probes', 'layout_csc_seen',
             'layout_unsorted_seen', 'empty_table_states', 'io_steps',
@@ -688,6 +688,10 @@ def light_oracle(ctx, t, desc, what):
     ctx.count('earlier_tables_rechecked')
 
 
+class Ended(Refused):
+    pass
+
+
 def apply_step(ctx, name, t, m, r, ever, hist):
     """Returns (t', m') or raises Refused. Runs the oracle."""
     fam, f = OPS[name]
@@ -710,6 +714,14 @@ def apply_step(ctx, name, t, m, r, ever, hist):
         d = snap.diff(snap.snap(t), snap.snap_spec(m),
                       fields=('obs_ids', 'samp_ids', 'D', 'obs_md',
                               'samp_md'))
+        if d and hist.get('error_profile') and isinstance(
+                e, ctx.TableException):
+            # under a profile that raises for a kind the default ignores, an
+            # in-place operation is carried out and *then* reported: the
+            # table moved on (coherent: checked above), the model did not.
+            # Nothing says such a table must be unchanged; the history ends.
+            ctx.count('in_place_step_reported_by_profile')
+            raise Ended()
         if d:
             raise Violation('C05/refused-op-changed-table/' + fam, '%s was '
                             'refused (%s) but left the table changed: %s; '
@@ -848,6 +860,26 @@ def run_case(ctx, index):
         oracle(ctx, t, r, ever, hist)   # (reading may re-lay-out the matrix)
     L = r.randint(4, 25)
     alive = []          # (snapshot at the time, table) of earlier tables
+    # some histories run under a non-default error profile: results that
+    # would be empty are then refused (or warned about), nothing else differs
+    import contextlib
+    import warnings
+    from biom.err import errstate
+    prof = r.choice([None] * 8 + [{'empty': 'raise'}, {'empty': 'warn'}])
+    stack = contextlib.ExitStack()
+    if prof:
+        hist['error_profile'] = prof
+        ctx.count('histories_under_other_error_profile')
+        stack.enter_context(warnings.catch_warnings())
+        warnings.simplefilter('ignore')
+        stack.enter_context(errstate(**prof))
+    with stack:
+        _random_history(ctx, r, t, m, ever, hist, L, alive, permanent,
+                        shared, spec)
+
+
+def _random_history(ctx, r, t, m, ever, hist, L, alive, permanent, shared,
+                    spec):
     for _ in range(L):
         name = r.choice(OP_NAMES)
         if r.random() < .12 and len(permanent) < 4:
@@ -865,6 +897,8 @@ def run_case(ctx, index):
         prev_snap = snap.snap(t)
         try:
             t, m = apply_step(ctx, name, t, m, r, ever, hist)
+        except Ended:
+            break
         except Refused:
             continue
         hist['ops'].append(name)
@@ -898,6 +932,7 @@ def setup(ctx):
     from biom.exception import (TableException, UnknownIDError,
                                 DisjointIDError)
     ctx.UnknownIDError = UnknownIDError
+    ctx.TableException = TableException
     REFUSALS = (TableException, UnknownIDError, DisjointIDError, IndexError,
                 ValueError, ZeroDivisionError, KeyError)
     install_invariant(ctx)
